@@ -32,11 +32,14 @@ def run(ctx):
     rng = random.Random(ctx.seed)
     rng.shuffle(small)
     progs += small[:150 if tier == 'quick' else 3000]
+    refs = c01.tlc_programs(ctx, 'ref-edges', 'RefProgs({3, 4}, {<<"L">>, <<"L", "S">>})' if tier == 'thorough' else 'RefProgs({3}, {<<"L">>, <<"L", "S">>})', workers=8)
+    rng.shuffle(refs)
+    progs += refs[:120 if tier == 'quick' else 3000]
     ctx.notes['programs'] = len(progs)
     jobs = []
     for k, p in enumerate(progs):
         vs = [dict(vec=False), dict(vec=True), dict(vec=True, sparseness=0.5)]
-        if len(p['prog']['edges']) >= 2:
+        if len(p['prog']['edges']) >= 2 and not any(e.get('ref') for e in p['prog']['edges']):
             vs += [dict(vec=True, wscale=2.0 ** -40), dict(vec=False, wscale=2.0 ** -40)]
         if tier == 'thorough':
             vs += [dict(vec=True, sparseness=0.02), dict(vec=True, hier=1)]
@@ -44,6 +47,8 @@ def run(ctx):
             if v['vec'] and p['d42'] and ctx.open_finding('D42'):
                 continue
             if not v['vec'] and p['d43']:
+                continue
+            if v['vec'] and p.get('d61') and ctx.open_finding('D61'):
                 continue
             jobs.append(dict(p=p, variant=dict(v, eqform=k % 4)))
     outs = run_cases(job, jobs, timeout=300)
@@ -56,10 +61,21 @@ def run(ctx):
         p = j['p']
         if j['variant'].get('wscale'):
             p = scale_expected(p, j['variant']['wscale'])
+        if d62_class(p, j['variant']) and o.get('exc') == 'IndexError' and 'invalid index to scalar' in (o.get('msg') or '') and ctx.open_finding('D62'):
+            ctx.known_hit('D62', dict(case=dict(prog=p['prog'], variant=j['variant']), observed=o.get('msg')))
+            verd['known'] = verd.get('known', 0) + 1
+            continue
         r = c01.judge(ctx, p, j['variant'], o, 'compiled field (vectorize on/off) vs Denote')
         verd[r] = verd.get(r, 0) + 1
     ctx.notes['verdicts'] = verd
     ctx.sample(dict(prog=progs[0]['prog'], field=progs[0]['field'][:3]))
+
+
+def d62_class(p, v):
+    """vectorised, index-based projection (matrix_sparseness raised), and a templated edge whose source node or referenced node is alone in its kind"""
+    kinds = [n['kind'] for n in p['prog']['nodes']]
+    return bool(v.get('vec') and v.get('sparseness') and any(e.get('ref') and (kinds.count(kinds[e['ref'] - 1]) == 1 or kinds.count(kinds[e['s'] - 1]) == 1)
+                                                              for e in p['prog']['edges']))
 
 
 def scale_expected(p, ws):
